@@ -87,6 +87,14 @@ def judge(prog, run, res, out: Outcome, inject):
                     continue
                 if any(dp[: len(anc)] == anc for dp in disp_exit_raise_paths):
                     break
+                if any(
+                    e["ev"] == "task_end" and e.get("how") == "failed" and tuple(e["path"])[: len(anc)] == anc and e["it"] <= ex["it"]
+                    for e in run.log
+                ):
+                    # a task spawned inside this block failed before the block was left: the task group cancels the
+                    # owner, which may hit the cleanup phase (what a failed spawned task does to its owner is not judged)
+                    out.unspecified.append("body-exception-while-spawned-task-fails")
+                    break
                 if ex["exc"] is not r["exc"]:
                     out.violate(
                         "identity",
